@@ -345,6 +345,9 @@ type replayStream struct {
 
 func NewStream() io.ReadWriteCloser { return &replayStream{} }
 
+// StreamHistory has no native counterpart (the history is not materialised).
+func StreamHistory(rwc io.ReadWriteCloser) {}
+
 // NewPipe: the native counterpart is a buffered blocking pipe.
 func NewPipe() io.ReadWriteCloser {
 	p := &replayPipe{}
